@@ -10,7 +10,8 @@ import calfile_lib as L
 
 DEFAULTS = (6, 7)
 VFILES = ["CalFile/NumTextProofs.v", "CalFile/CalFileProofs.v", "CalFile/CalSaveProofs.v", "CalFile/CalSaveExamples.v",
-          "CalFile/SaveBufFacts.v", "Properties_C07.v"]
+          "CalFile/SaveBufFacts.v", "CalFile/LegacyProofs.v", "CalFile/LegacyExamples.v", "CalFile/LegacyApplyProofs.v",
+          "CalFile/LegacyApplyExamples.v", "Properties_C07.v"]
 
 
 def py_accepts(setter, p):
@@ -90,10 +91,16 @@ def run(ctx):
             ctx.count(("T4", tuple(sorted(abi["f"].items())), abi["maxp"]))
     # text length model of NumText.v against glibc
     numtext_tie(ctx, exe)
-    if info is not None and not coq_ok:
-        search_overflow(ctx, info, exe)
-    elif info is None:
-        search_overflow(ctx, None, exe)
+    if info is None or not coq_ok:
+        # the translator or a proof no longer recognises the source: both searches run on the compiled code
+        # only (they need neither the translator's output nor a built Coq file)
+        found, cands = search_overflow(ctx, info, exe)
+        found = search_number_texts(ctx, exe) or found
+        if not found:
+            ctx.unproved("cal_buffers_fit / T4", "the Coq development of C07 or its translator no longer checks",
+                         "vnacal_save at the precisions %r under ASan; byte-level number tie: every number text of the saved file "
+                         "(z0, every frequency, every error-term cell) of all 8 types x %d (fprecision, dprecision) pairs equals the "
+                         "correctly rounded C99 text at the precision that governs it" % (cands, len(NUMBER_PROBE_PRECS)))
     ctx.trusted_base += [
         "Coq 8.16.1 kernel; vm_compute only for the Examples (toy instance, bounded sweep); no native_compute",
         "axioms: none (Print Assumptions: Closed under the global context for every theorem of Properties_C07.v)",
@@ -187,6 +194,113 @@ def search_overflow(ctx, info, exe):
                           {"how": "harness/calfile_harness.c: load; set%sp %d; save" % (w, p), "file": open(src).read(), "stderr": cr.crash[1][-2500:],
                            "theorem": "cal_buffers_fit"})
             found = True
-    if not found:
-        ctx.unproved("cal_buffers_fit / T4", "the Coq development of C07 or its translator no longer checks",
-                     "vnacal_save at the precisions %r under ASan" % (cands,))
+    return found, cands
+
+
+# (fprecision, dprecision) pairs of the byte-level number search: the two precisions always differ, both
+# orders, the defaults, hexadecimal on one side only
+NUMBER_PROBE_PRECS = [(None, None), (3, 12), (12, 3), (None, 1000), (1000, None), (17, 2), (1, 40), (9, 18)]
+
+
+def search_number_texts(ctx, exe):
+    """Byte-level number tie that does not depend on the translator or on any Coq file: for every
+    calibration type (a square and a rectangular shape, so that every vector / matrix of the type is
+    written and 'el' has a diagonal) and every pair of NUMBER_PROBE_PRECS, one calibration with two
+    frequencies is saved and the text of EVERY number of the file - z0, every frequency, every
+    error-term cell - is compared with the correctly rounded C99 text of the value the container held
+    (harness dump) at the precision that governs it (fprecision for 'f', dprecision for z0 and the
+    error terms; %a at VNACAL_MAX_PRECISION).  The first difference per (type, matrix) is reported
+    as a violation with type, dimensions, both precisions and the cell as replay."""
+    import random
+    rng = random.Random(ctx.seed * 7919 + 12)
+    ytree = ctx.build_harness("yamltree", san=True)
+    d = os.path.join(ctx.tmp, "numprobe")
+    os.makedirs(d, exist_ok=True)
+    shapes = []
+    for t in L.TYPES:
+        shapes += [(t, 2, 2), (t, 2, 3) if L.is_t(t) else (t, 3, 2)]
+    probes = []
+    script = []
+    for t, mr, mc in shapes:
+        for fp, dp in NUMBER_PROBE_PRECS:
+            k = len(probes)
+            nt = L.n_terms(t, mr, mc)
+            cal = {"name": "p%d" % k, "type": t, "rows": mr, "cols": mc, "F": 2, "z0": complex(rng.uniform(40, 60), rng.uniform(-3, 3)),
+                   "fvec": [1.0e9 * (1 + rng.random() / 8), 3.0e9 * (1 + rng.random() / 8)],
+                   "terms": [[complex(rng.uniform(-2, 2), rng.uniform(-2, 2)) * 10.0 ** rng.randint(-3, 3) for _ in range(2)] for _ in range(nt)],
+                   "props": None}
+            src = os.path.join(d, "n%d.vnacal" % k)
+            out = os.path.join(d, "n%d_out.vnacal" % k)
+            text = L.write_vnacal([cal], None, style="hex")
+            with open(src, "w") as f:
+                f.write(text)
+            lines = ["load 0 %s" % src]
+            if fp is not None:
+                lines.append("setfp 0 %d" % fp)
+            if dp is not None:
+                lines.append("setdp 0 %d" % dp)
+            lines += ["dump 0", "save 0 %s" % out, "free 0"]
+            script += ["case %d" % k] + lines
+            probes.append((t, mr, mc, fp, dp, src, out, lines, text))
+    res = L.run_script(ctx, exe, "\n".join(script) + "\n", len(probes), timeout=300)
+    rc, tout, terr = vplib.sh([ytree, "cal", "-"], input="".join(p[6] + "\n" for p in probes if os.path.exists(p[6])),
+                              timeout=300, env=ctx.run_env())
+    trees = L.parse_tree_dump(tout)
+    found = 0
+    seen = set()
+    compared = 0
+    for k, (t, mr, mc, fp, dp, src, out, lines, text) in enumerate(probes):
+        cr = res.get(k)
+        efp = DEFAULTS[0] if fp is None else fp
+        edp = DEFAULTS[1] if dp is None else dp
+        rep = {"type": t, "rows": mr, "columns": mc, "fprecision": efp, "dprecision": edp, "script": lines,
+               "files": {os.path.basename(src): text}, "how": "harness/calfile_harness.c runs the script; harness/yamltree.c cal <saved file> prints the node tree"}
+        if cr is None:
+            continue
+        if cr.crash:
+            sig = dict(cr.crash[2])
+            if found < 4:
+                ctx.violation(sig, "number-text search, %s %dx%d fprecision=%d dprecision=%d: %s in %s" % (t, mr, mc, efp, edp, sig.get("error"), sig.get("function")),
+                              dict(rep, stderr=cr.crash[1][-2500:]))
+            found += 1
+            continue
+        try:
+            i = 0
+            while not cr.lines[i].startswith("NCAL"):
+                i += 1
+            st, i = L.parse_dump(cr.lines, i)
+            saved = cr.lines[i].startswith("save rc=0")
+        except (IndexError, ValueError, AssertionError):
+            continue
+        doc = trees.get(out)
+        if not saved or doc is None or doc["root"] is None or doc["error"]:
+            continue
+        probs = []
+        g, cals = L.read_saved_doc(doc["root"], probs)
+        s = st["slots"][0] if st and st["slots"] else None
+        if probs or len(cals) != 1 or s is None:
+            continue
+        c = cals[0]
+        fm = L.file_matrices(t, mr, mc)
+        items = [("z0", None, None, c["z0_text"], L.fmt_c(s["z0"], edp), "dprecision")]
+        for fi in range(min(len(c["f_text"]), len(s["fvec"]))):
+            items.append(("f", None, fi, c["f_text"][fi], L.fmt_f(s["fvec"][fi], efp), "fprecision"))
+        for nm, kind, r, cc, cells in fm:
+            for pos, ti in enumerate(cells):
+                for fi in range(c["F"]):
+                    if ti < len(s["terms"]) and fi < len(s["terms"][ti]) and c["term_text"][ti][fi] is not None:
+                        items.append((nm, pos, fi, c["term_text"][ti][fi], L.fmt_c(s["terms"][ti][fi], edp), "dprecision"))
+        for nm, pos, fi, got, want, which in items:
+            compared += 1
+            if got != want and (t, nm) not in seen:
+                seen.add((t, nm))
+                found += 1
+                if found <= 4:
+                    cell = nm if pos is None else "%s[%d]" % (nm, pos)
+                    ctx.violation({"kind": "number-text", "class": "%s of %s" % (nm, t)},
+                                  "vnacal_save writes %s of a %s %dx%d calibration (frequency index %s) as %r; the correctly rounded C99 text of the stored value at %s = %d is %r "
+                                  "(fprecision=%d dprecision=%d)" % (cell, t, mr, mc, fi, got, which, edp if which == "dprecision" else efp, want, efp, edp),
+                                  dict(rep, cell=cell, findex=fi, text=got, expected=want, governed_by=which))
+        ctx.count(("numprobe", t, mr, mc, efp, edp))
+    ctx.extra["number_text_search"] = {"probes": len(probes), "texts_compared": compared, "differences": found}
+    return found > 0
